@@ -244,14 +244,21 @@ def rule_absorb_tables(ctx):
                           f"is {sorted(by_value.get(c, c) for c in sv)}, expected {sorted(by_value[c] for c in want)}", where=m.relpath))
     # parse_split_left_right_isom
     f = ctx.prog.func(DECOMP, "parse_split_left_right_isom")
-    for var, idx, bare in (("left_isom", 0, "U"), ("right_isom", 2, "VH")):
+    # the function returns (left flag, right flag); each is `absorb in (<codes>)` (directly or through a local)
+    ret = next((x.value for x in ast.walk(f.node) if isinstance(x, ast.Return) and isinstance(x.value, ast.Tuple) and len(x.value.elts) == 2), None)
+    if ret is None:
+        raise AnalysisError("parse_split_left_right_isom: does not return a pair of flags")
+    ldefs = {a.targets[0].id: a.value for a in ast.walk(f.node) if isinstance(a, ast.Assign) and len(a.targets) == 1 and isinstance(a.targets[0], ast.Name)}
+    for var, pos, idx, bare in (("left_isom", 0, 0, "U"), ("right_isom", 1, 2, "VH")):
+        e = ret.elts[pos]
+        if isinstance(e, ast.Name) and e.id in ldefs:
+            e = ldefs[e.id]
         tup = None
-        for n in ast.walk(f.node):
-            if isinstance(n, ast.Assign) and isinstance(n.targets[0], ast.Name) and n.targets[0].id == var and isinstance(n.value, ast.Compare) and isinstance(n.value.ops[0], ast.In):
-                tup = {e.id for e in n.value.comparators[0].elts if isinstance(e, ast.Name)}
+        if isinstance(e, ast.Compare) and isinstance(e.ops[0], ast.In) and isinstance(e.comparators[0], (ast.Tuple, ast.List, ast.Set)):
+            tup = {x.id for x in e.comparators[0].elts if isinstance(x, ast.Name)}
         want = {cname for cname in codes if spelled_triple(cname)[idx] == bare}
         if tup is None:
-            raise AnalysisError(f"parse_split_left_right_isom: `{var} = absorb in (...)` not found")
+            raise AnalysisError(f"parse_split_left_right_isom: flag {pos} is not `absorb in (...)`")
         if tup == want:
             r.ok(f"parse_split_left_right_isom[{var}]", sample={var: sorted(want)})
         else:
@@ -283,13 +290,33 @@ def _mode_tests(fnode, param="cutoff_mode"):
                 handled |= {e.id for e in n.comparators[0].elts if isinstance(e, ast.Name)}
         if isinstance(n, ast.If) and isinstance(n.test, ast.Compare) and isinstance(n.test.left, ast.Name) and n.test.left.id == param and isinstance(n.test.ops[0], ast.In):
             names = frozenset(e.id for e in n.test.comparators[0].elts if isinstance(e, ast.Name))
-            body = "\n".join(src_of(s) for s in n.body)
-            if "pow = 2" in body:
+
+            def const_assigns(stmts, value):
+                """locals assigned the literal `value` (top level of the arm)"""
+                return {a.targets[0].id for a in stmts if isinstance(a, ast.Assign) and len(a.targets) == 1 and isinstance(a.targets[0], ast.Name)
+                        and isinstance(a.value, ast.Constant) and a.value.value == value and not isinstance(a.value.value, bool)}
+
+            # the local used as an exponent somewhere in the function
+            exps = {y.id for b in ast.walk(fnode) if isinstance(b, ast.BinOp) and isinstance(b.op, ast.Pow) for y in ast.walk(b.right) if isinstance(y, ast.Name)}
+            two = const_assigns(n.body, 2) & exps
+            if two:
                 pow2 = names
-                other = "\n".join(src_of(s) for s in n.orelse)
-                if "pow = 1" not in other and "pow = 2" in other:
+                if not (const_assigns(n.orelse, 1) & two) and (const_assigns(n.orelse, 2) & two):
                     pow2 = frozenset(names | {"<else branch also uses power 2>"})
-            if "tot * (1 - cutoff)" in body or "target *= " in body:
+            # relative target: the arm multiplies something with the cutoff (or a local set from it); the other arm does not
+            cut_locals = {"cutoff"} | {a.targets[0].id for a in ast.walk(fnode) if isinstance(a, ast.Assign) and len(a.targets) == 1 and isinstance(a.targets[0], ast.Name)
+                                       and isinstance(a.value, ast.Name) and a.value.id == "cutoff"}
+
+            def multiplies_cutoff(stmts):
+                for st_ in stmts:
+                    for x in ast.walk(st_):
+                        if isinstance(x, ast.BinOp) and isinstance(x.op, ast.Mult) and any(isinstance(y, ast.Name) and y.id in cut_locals for y in ast.walk(x)):
+                            return True
+                        if isinstance(x, ast.AugAssign) and isinstance(x.op, ast.Mult) and isinstance(x.target, ast.Name) and x.target.id in cut_locals:
+                            return True
+                return False
+
+            if multiplies_cutoff(n.body) and not multiplies_cutoff(n.orelse):
                 rel = names
     return handled, pow2, rel
 
@@ -498,15 +525,25 @@ def rule_clamp(ctx):
     )
     m = ctx.prog.module(DECOMP)
     f = ctx.prog.func(DECOMP, "_trim_and_renorm_svd_result")
-    src = " ".join(src_of(f.node).split())
-    for what, pat in (("lower clamp", "n_chi = max(int(n_chi), 1)"), ("upper clamp", "n_chi = min(n_chi, max_bond)")):
-        if pat in src:
-            r.ok(f"_trim_and_renorm_svd_result[{what}]", sample={"function": f.qualname, what: pat})
-        else:
-            r.bad(Finding("clamp", f.qualname, f"{what} `{pat}` not found", where=f"{m.relpath}:{f.lineno}", operand=what))
+    def _is_max_with_one(e, mention=None):
+        """max(<expr>, 1) / max(1, <expr>) — the builtin with a literal 1 (structural; local names are free)."""
+        if not (isinstance(e, ast.Call) and dotted(e.func) == "max" and len(e.args) == 2):
+            return False
+        ones = [a for a in e.args if const_value(a, None) == 1 and isinstance(a, ast.Constant)]
+        others = [a for a in e.args if a not in ones]
+        if len(ones) != 1 or len(others) != 1:
+            return False
+        return mention is None or any(isinstance(y, ast.Name) and y.id == mention for y in ast.walk(others[0]))
+
+    lower = [a for a in ast.walk(f.node) if isinstance(a, ast.Assign) and len(a.targets) == 1 and isinstance(a.targets[0], ast.Name)
+             and _is_max_with_one(a.value, a.targets[0].id)]
+    if lower:
+        r.ok("_trim_and_renorm_svd_result[lower clamp]", sample={"function": f.qualname, "lower clamp": src_of(lower[0])})
+    else:
+        r.bad(Finding("clamp", f.qualname, "the dynamically chosen rank is never clamped from below with max(., 1)", where=f"{m.relpath}:{f.lineno}", operand="lower clamp"))
     g = ctx.prog.func(DECOMP, "_compute_number_svals_to_keep_numba")
     rets = [n for n in ast.walk(g.node) if isinstance(n, ast.Return)]
-    if rets and all(src_of(x.value).replace(" ", "") in ("max(n_chi,1)", "max(1,n_chi)") for x in rets):
+    if rets and all(_is_max_with_one(x.value) for x in rets):
         r.ok("_compute_number_svals_to_keep_numba[lower clamp]")
     else:
         r.bad(Finding("clamp", g.qualname, "does not return max(n_chi, 1) on every path", where=f"{m.relpath}:{g.lineno}", operand="lower clamp"))
